@@ -224,16 +224,15 @@ def translate_expression(expr, env: Env) -> TExp:  # noqa: C901
             else:
                 raise exceptions.OperationNotSupportedException(bool, expr.ops[0])
 
-            c = True
+            # two tuples are equal when all their bits are, different when at least one bit is
+            is_eq = isinstance(expr.ops[0], ast.Eq)
+            c = True if is_eq else False
             idx = 0
             for left, right in zip(arg_l, arg_r):
-                if left == bool:
-                    c = And(c, op((bool, tleft[1][idx]), (bool, tcomp[1][idx]))[1])
+                for si in range(1 if left == bool else left.BIT_SIZE):
+                    bit_c = op((bool, tleft[1][idx]), (bool, tcomp[1][idx]))[1]
+                    c = And(c, bit_c) if is_eq else Or(c, bit_c)
                     idx += 1
-                else:
-                    for si in range(left.BIT_SIZE):
-                        c = And(c, op((bool, tleft[1][idx]), (bool, tcomp[1][idx]))[1])
-                        idx += 1
 
             return (bool, c)
 
